@@ -7,7 +7,7 @@ IDS = [f"C{i:02d}" for i in range(1, 21)]
 CHECKS = {
  "C01": dict(cat="exploration", ref="D5 C01", tech="deterministic discrete-event simulation (seeded config+history search, fault injection: bursts/clock jumps/capacity pressure) with end-state invariant oracle",
    text="Seeded search over generated configurations (whole non-latching action grammar) x physically consistent histories with injected bursts (>32 events/ms), clock jumps, repeats and capacity pressure, run on the real Kanata state machine through the production loop protocol; after the last release the oracle requires, within Q(cfg) ms, no OS key/button down, no continuous scroll/move, silence, is_idle() and can-block. Evidence, not proof: held on every run explored.",
-   note="Q(cfg) over-approximates 'bounded by configured timeouts and macro lengths'; KbdOut is the project's simulated_output recorder; three classes of genuine stuck-output defects are listed in known_findings.json and printed as KNOWN-FINDING."),
+   note="Q(cfg) over-approximates 'bounded by configured timeouts and macro lengths'; KbdOut is the project's simulated_output recorder; four genuine stuck-output defect classes are known findings, each matched by a cause tag (custom events dropped: probe H5; input-queue overflow; self-retriggering action; > 4 concurrent macros); dedicated capacity populations drive the 64-slot state vector, the one-shot table and concurrent tap-holds to their limits with custom actions pressed there."),
  "C02": dict(cat="exploration", ref="D5 C02", tech="deterministic simulation with hostile-input fault injection (dup/orphan/flood/any code/clock jump), crash+hang oracle",
    text="Seeded search over parser-accepted configurations generated from the whole grammar (boundary numerics, every action in every context) x hostile histories (any key code, repeated presses, orphan releases, floods of up to 300 events in one ms, repeat/tap events, TCP-style virtual key ops, 70 s gaps, clock jumps) in ticking and idle-blocking mode; oracle: no panic (overflow checks and debug assertions ON), no abort/stack overflow (worker death attributed to the run), no Err from tick, no hang (per-run watchdog).",
    note="sampling, not enumeration; cmd/clipboard/xset actions excluded at run time; build profile differs from the shipped release profile on purpose (overflow checks on)."),
@@ -19,13 +19,13 @@ CHECKS = {
 CHECKS.update({
  "C04": dict(cat="exploration", ref="D5 C04", tech="deterministic simulation + refinement against an executable reference model of the layered keymap (seeded config x history search)",
    text="Seeded search over configurations of the layered fragment (1-4 layers as deflayer/deflayermap, 2-6 keys, both transparent-resolution settings, delegate-to-first-layer, block/process-unmapped-keys) x physically consistent histories (<= 60 events, 0-3 ms gaps, < 32 pending); the real Kanata's OS output (ms, kind, key) must equal, event for event, the output of a 150-line reference model written from the property statement (FIFO one event per ms, search order newest held layer..base..first layer..defsrc, nested transparent continues below, release by coordinate, clear-on-next-action chords, ordered de-duplicated diff).",
-   note="runs with >= 32 pending events or a full 64-entry state vector are outside the model and counted as skipped; key-name table trusted (C11)."),
+   note="runs with >= 32 pending events, a full 64-entry state vector or more than 10 simultaneously held layers (12-slot layer stack) are outside the model and counted as skipped; key-name table trusted (C11)."),
  "C05": dict(cat="exploration", ref="D5 C05", tech="deterministic simulation over the boundary grid of schedules with exact-tick reference function (tap/hold/timeout decision) + trace invariants",
    text="All 7 tap-hold variants with three distinct marker actions, H in {1,2,5,50,200}, tap-repress windows, concurrent-tap-hold on/off, rapid-event-delay {0,5}; schedules of <= 8 events with gaps from {0,1,H-1,H,H+1,...}. Oracle: exactly one of tap/hold/timeout per press; for a press into a drained engine the decision AND its tick equal a reference function written from the docs + the tick conventions; early triggers per variant; keys pressed while undecided are neither lost, duplicated, reordered nor output before the decision; re-press inside the window = tap held.",
    note="exact tick constants are conventions of the pinned tree (DESIGN.md D5); sampling of the grid, fraction reached reported."),
  "C06": dict(cat="exploration", ref="D5 C06", tech="deterministic simulation over structured schedules at timeout boundaries with trace-invariant oracle",
    text="All one-shot end variants x payload key / output chord / layer, T in {1,2,10,100}, rapid-event-delay {0,1,5}; populations: exact expiry tick, next key (press vs release variants: first key modified, later keys not), held, stacked (combine + restart), re-press (pcancel ends, others restart), 17-20 stacked one-shots (table overflow), always ending with nothing down.",
-   note="a following key arriving within a few ms (number of events in flight + 3) of the expiry instant is counted but not judged (time is counted when events are processed)."),
+   note="a following key arriving within a few ms (number of events in flight + 3) of the expiry instant is counted but not judged (time is counted when events are processed); the 'episodes' population runs several one-shot episodes on one instance (keys held before the one-shot key, expiry while a key is held) so that state left by one episode cannot leak into the next unnoticed."),
  "C07": dict(cat="exploration", ref="D5 C07", tech="deterministic simulation, differential: ticking run vs idle-blocking run of the same seeded history on fresh instances",
    text="For generated configurations with all time-dependent features and histories with gaps up to 70 s, two executions (never skip vs skip whenever the real can-block decision is true) must produce identical output traces with time measured relative to the preceding input, and the ticking run must output nothing between a true can-block decision and the next input.",
    note="part 2 ('loop' population, ~15% of the runs) runs the real start_processing_loop thread, an input feeder and a TCP-client task as real threads under the seeded baton scheduler of rt with a virtual clock (executor B): in strict mode (no jitter, ties feeder-first) the loop's output must equal the stepper's idle-blocking run tick for tick (this is what validates executor A's loop protocol; it corrected the stepper twice and found an off-by-one in kanata); with per-step costs, sleep overshoot and injected stalls of 2-40 ms the loop must terminate, nobody may deadlock or panic and nothing may stay down. The zippychord contingency-reset divergence is a known finding (probe H2)."),
